@@ -687,7 +687,8 @@ class FaultyFile(object):
 def install_write_faults(case, env, fired):
     """spec_factory.open / serde.open wrappers (module attributes shadow the builtin)."""
     import builtins
-    plan = [f for f in case["faults"] if f["kind"] in ("short-data", "fail-data", "fail-meta")]
+    # (copies: the case is the replay file, executing it must not write into it)
+    plan = [dict(f) for f in case["faults"] if f["kind"] in ("short-data", "fail-data", "fail-meta")]
     if not plan:
         return
     counters = {"data": 0, "meta": 0}
